@@ -658,6 +658,12 @@ pub fn value_j<'tcx>(tcx: TyCtxt<'tcx>, v: ConstValue, ty: Ty<'tcx>, o: &mut J) 
 		}
 		ConstValue::Scalar(mir::interpret::Scalar::Ptr(ptr, _)) => {
 			if let ty::Ref(_, inner, _) = ty.kind() {
+				if matches!(inner.kind(), ty::Array(..) | ty::Tuple(..)) {
+					let (prov, off) = ptr.into_raw_parts();
+					if let Some(d) = decode_mem(tcx, prov.alloc_id(), off.bytes_usize(), *inner, None, 0) {
+						o.put("decoded", d);
+					}
+				}
 				let is_bytes = match inner.kind() {
 					ty::Array(e, _) | ty::Slice(e) => matches!(e.kind(), ty::Uint(ty::UintTy::U8)),
 					ty::Str => true,
@@ -751,6 +757,13 @@ pub fn value_j<'tcx>(tcx: TyCtxt<'tcx>, v: ConstValue, ty: Ty<'tcx>, o: &mut J) 
 		}
 		ConstValue::Slice { alloc_id, meta } => {
 			if let ty::Ref(_, inner, _) = ty.kind() {
+				if let ty::Slice(e) = inner.kind() {
+					if !matches!(e.kind(), ty::Uint(ty::UintTy::U8)) {
+						if let Some(d) = decode_mem(tcx, alloc_id, 0, *inner, Some(meta), 0) {
+							o.put("decoded", d);
+						}
+					}
+				}
 				let is_bytes = match inner.kind() {
 					ty::Slice(e) => matches!(e.kind(), ty::Uint(ty::UintTy::U8)),
 					ty::Str => true,
@@ -770,9 +783,126 @@ pub fn value_j<'tcx>(tcx: TyCtxt<'tcx>, v: ConstValue, ty: Ty<'tcx>, o: &mut J) 
 				}
 			}
 		}
-		ConstValue::Indirect { .. } => {
+		ConstValue::Indirect { alloc_id, offset } => {
 			o.put("indirect", J::Bool(true));
+			if let Some(d) = decode_mem(tcx, alloc_id, offset.bytes_usize(), ty, None, 0) {
+				o.put("decoded", d);
+			}
 		}
+	}
+}
+
+/// Decodes constant memory of type `ty` at `off` in allocation `aid`: integers, fieldless enums, `&str`,
+/// references, slices, arrays, tuples and plain structs (lookup tables such as `[(&str, Format); N]`).
+pub fn decode_mem<'tcx>(tcx: TyCtxt<'tcx>, aid: mir::interpret::AllocId, off: usize, ty: Ty<'tcx>, meta: Option<u64>, depth: u32) -> Option<J> {
+	use rustc_middle::mir::interpret::GlobalAlloc;
+	if depth > 6 {
+		return None;
+	}
+	let Some(GlobalAlloc::Memory(alloc)) = tcx.try_get_global_alloc(aid) else { return None };
+	let a = alloc.inner();
+	let tenv = TypingEnv::fully_monomorphized();
+	let read_uint = |at: usize, n: usize| -> Option<u128> {
+		if n == 0 || n > 16 || at + n > a.len() {
+			return None;
+		}
+		let bytes = a.inspect_with_uninit_and_ptr_outside_interpreter(at..at + n);
+		let mut v: u128 = 0;
+		for (k, b) in bytes.iter().enumerate() {
+			v |= (*b as u128) << (8 * k);
+		}
+		Some(v)
+	};
+	match ty.kind() {
+		ty::Str => {
+			let n = meta? as usize;
+			if off + n > a.len() || n > 1 << 16 {
+				return None;
+			}
+			let bytes = a.inspect_with_uninit_and_ptr_outside_interpreter(off..off + n);
+			std::str::from_utf8(bytes).ok().map(|s| J::obj().set("str", J::s(s)))
+		}
+		ty::Slice(e) => {
+			let n = meta? as usize;
+			let el = tcx.layout_of(tenv.as_query_input(*e)).ok()?;
+			if n > 4096 {
+				return None;
+			}
+			let mut items = vec![];
+			for i in 0..n {
+				items.push(decode_mem(tcx, aid, off + i * el.size.bytes_usize(), *e, None, depth + 1)?);
+			}
+			Some(J::obj().set("seq", J::Arr(items)))
+		}
+		ty::Array(e, len) => {
+			let n = len.try_to_target_usize(tcx)? as usize;
+			let el = tcx.layout_of(tenv.as_query_input(*e)).ok()?;
+			if n > 4096 {
+				return None;
+			}
+			let mut items = vec![];
+			for i in 0..n {
+				items.push(decode_mem(tcx, aid, off + i * el.size.bytes_usize(), *e, None, depth + 1)?);
+			}
+			Some(J::obj().set("seq", J::Arr(items)))
+		}
+		ty::Bool => read_uint(off, 1).map(|v| J::obj().set("v", J::Bool(v != 0))),
+		ty::Int(_) => {
+			let l = tcx.layout_of(tenv.as_query_input(ty)).ok()?;
+			let n = l.size.bytes_usize();
+			let v = read_uint(off, n)?;
+			let shift = 128 - 8 * n as u32;
+			Some(J::obj().set("v", J::Int(((v << shift) as i128) >> shift)))
+		}
+		ty::Uint(_) | ty::Char => {
+			let l = tcx.layout_of(tenv.as_query_input(ty)).ok()?;
+			read_uint(off, l.size.bytes_usize()).map(|v| J::obj().set("v", J::Int(v as i128)))
+		}
+		ty::Ref(_, inner, _) => {
+			let psz = tcx.data_layout.pointer_size().bytes_usize();
+			let prov = a.provenance().ptrs().get(&rustc_abi::Size::from_bytes(off as u64))?;
+			let toff = read_uint(off, psz)? as usize;
+			let m = match inner.kind() {
+				ty::Str | ty::Slice(_) => Some(read_uint(off + psz, psz)? as u64),
+				_ => None,
+			};
+			decode_mem(tcx, prov.alloc_id(), toff, *inner, m, depth + 1)
+		}
+		ty::Tuple(tys) => {
+			let l = tcx.layout_of(tenv.as_query_input(ty)).ok()?;
+			let mut items = vec![];
+			for (i, t) in tys.iter().enumerate() {
+				items.push(decode_mem(tcx, aid, off + l.fields.offset(i).bytes_usize(), t, None, depth + 1)?);
+			}
+			Some(J::obj().set("tuple", J::Arr(items)))
+		}
+		ty::Adt(adt, args) if adt.is_enum() && adt.variants().iter().all(|v| v.fields.is_empty()) => {
+			let l = tcx.layout_of(tenv.as_query_input(ty)).ok()?;
+			let n = l.size.bytes_usize();
+			if n == 0 {
+				let v = adt.variants().iter().next()?;
+				return Some(J::obj().set("variant", J::s(v.name.to_string())));
+			}
+			let bits = read_uint(off, n)?;
+			let mask = if n >= 16 { u128::MAX } else { (1u128 << (8 * n)) - 1 };
+			let _ = args;
+			for (vidx, d) in adt.discriminants(tcx) {
+				if d.val & mask == bits {
+					return Some(J::obj().set("variant", J::s(adt.variant(vidx).name.to_string())).set("adt", J::s(path(tcx, adt.did()))));
+				}
+			}
+			None
+		}
+		ty::Adt(adt, args) if adt.is_struct() => {
+			let l = tcx.layout_of(tenv.as_query_input(ty)).ok()?;
+			let mut fields = J::obj();
+			for (i, f) in adt.non_enum_variant().fields.iter().enumerate() {
+				let fty = f.ty(tcx, args);
+				fields.put(&f.name.to_string(), decode_mem(tcx, aid, off + l.fields.offset(i).bytes_usize(), fty, None, depth + 1)?);
+			}
+			Some(J::obj().set("struct", J::s(path(tcx, adt.did()))).set("fields", fields))
+		}
+		_ => None,
 	}
 }
 
